@@ -90,8 +90,17 @@ def write_cmd_line_file(build_dir: str, options: SharedCMDOptions) -> None:
 
     config['options'] = {str(k): str(v) for k, v in options.cmd_line_options.items()}
     config['properties'] = {k: repr(v) for k, v in properties.items()}
-    with open(filename, 'w', encoding='utf-8') as f:
+    _write_cmd_line_config(filename, config)
+
+def _write_cmd_line_config(filename: str, config: CmdLineFileParser) -> None:
+    # Never leave a truncated file behind if we are interrupted: the file
+    # is needed to reconfigure or wipe the build directory.
+    tempfilename = filename + '~'
+    with open(tempfilename, 'w', encoding='utf-8') as f:
         config.write(f)
+        f.flush()
+        os.fsync(f.fileno())
+    os.replace(tempfilename, filename)
 
 def update_cmd_line_file(build_dir: str, options: SharedCMDOptions) -> None:
     filename = get_cmd_line_file(build_dir)
@@ -109,8 +118,7 @@ def update_cmd_line_file(build_dir: str, options: SharedCMDOptions) -> None:
         elif keystr in config['options']:
             del config['options'][keystr]
 
-    with open(filename, 'w', encoding='utf-8') as f:
-        config.write(f)
+    _write_cmd_line_config(filename, config)
 
 def format_cmd_line_options(options: SharedCMDOptions) -> str:
     cmdline = ['-D{}={}'.format(str(k), v) for k, v in options.cmd_line_options.items()]
